@@ -37,6 +37,9 @@ DET = ("skchange.anomaly_detectors", "CircularBinarySegmentation")
 
 
 def check(ctx):
+    from .c10 import shared_no_stale
+
+    shared_no_stale(ctx, "C09.f WIRING", [("skchange.anomaly_detectors", "CircularBinarySegmentation")])
     cls = ctx.P.public_class(*DET)
     pred = ctx.P.lookup_method(cls, "_predict")
     cands = find_driver_call(ctx, pred)
@@ -59,11 +62,12 @@ def check(ctx):
 
 
 def discover_inner(ctx, drv):
-    for n in ast.walk(drv.node):
-        if isinstance(n, ast.Assign) and isinstance(n.value, ast.Call) and isinstance(n.targets[0], ast.Tuple) and len(n.targets[0].elts) == 2:
-            r = ctx.P.resolve_expr(drv.module, n.value.func) if isinstance(n.value.func, (ast.Name, ast.Attribute)) else None
-            if isinstance(r, FuncInfo) and r.cls is None and any(isinstance(a, ast.Name) and a.id in ("start", "end") for a in n.value.args):
-                return r
+    """the inner-interval generator: the repo function whose pair of results is unpacked inside the interval loop"""
+    from .c07 import _unpack_calls
+
+    for st, r, in_loop in _unpack_calls(ctx, drv):
+        if in_loop:
+            return r
     return None
 
 
